@@ -126,7 +126,7 @@ class World:
         return max([r for r, _ in self.files.values()] + [0])
 
     def backend(self):
-        return (self.conf or {}).get("backend", "slurm")
+        return (self.conf if isinstance(self.conf, dict) else {}).get("backend", "slurm")
 
     def canon_files(self):
         """dense ranks preserving order and ties"""
@@ -206,6 +206,7 @@ class Session:
         self.world0 = world
         self.sim = None
         self.sim_hook = None
+        self.file_hook = None  # file_hook(event, path): event in open/write/close on state files opened for writing by gwf
         self.touch_events = []
         self.clock = world.clock()
         self._materialise(world)
@@ -225,17 +226,20 @@ class Session:
         self.write_files(w.files)
         if w.conf is not None:
             with open(os.path.join(self.proj, ".gwfconf.json"), "w") as f:
-                json.dump(w.conf, f, indent=4, sort_keys=True)
+                if isinstance(w.conf, (tuple, list)):
+                    _dump_json(w.conf, f)
+                else:
+                    json.dump(w.conf, f, indent=4, sort_keys=True)
         need_gwf = w.tracked or w.hashes is not None or w.logs
         if need_gwf:
             os.makedirs(os.path.join(self.proj, ".gwf", "logs"), exist_ok=True)
         for b, t in w.tracked.items():
             if t is not None:
                 with open(os.path.join(self.proj, ".gwf", f"{b}-backend-tracked.json"), "w") as f:
-                    json.dump(t, f)
+                    _dump_json(t, f)
         if w.hashes is not None:
             with open(os.path.join(self.proj, ".gwf", "spec-hashes.json"), "w") as f:
-                json.dump(w.hashes, f)
+                _dump_json(w.hashes, f)
         for name, content in w.logs.items():
             with open(os.path.join(self.proj, ".gwf", "logs", name), "w") as f:
                 f.write(content)
@@ -287,6 +291,49 @@ class Session:
         gwf.core.Target._creation_order = 0
         bu.subprocess = simsched.PopenShim(self.sim, hook=self.sim_hook)
         bu.shutil = simsched.WhichShim(self.sim)
+        patched = []
+        if self.file_hook is not None:
+            import builtins
+
+            import gwf.backends.base as gb
+            import gwf.conf as gc
+            import gwf.core as gco
+            import gwf.utils as gu
+
+            hook = self.file_hook
+
+            class _Proxy:
+                def __init__(self, f, path):
+                    self._f, self._path = f, path
+
+                def write(self, data):
+                    n = self._f.write(data)
+                    hook("write", self._path)
+                    return n
+
+                def close(self):
+                    self._f.close()
+                    hook("close", self._path)
+
+                def __enter__(self):
+                    return self
+
+                def __exit__(self, *a):
+                    self.close()
+
+                def __getattr__(self, k):
+                    return getattr(self._f, k)
+
+            def open_proxy(path, mode="r", *a, **kw):
+                f = builtins.open(path, mode, *a, **kw)
+                if "w" in mode or "a" in mode or "+" in mode:
+                    hook("open", str(path))
+                    return _Proxy(f, str(path))
+                return f
+
+            for m in (gb, gc, gco, gu):
+                m.open = open_proxy
+                patched.append(m)
         os.chdir(cwd or self.proj)
         _AUDIT["events"] = []
         _AUDIT["on"] = True
@@ -302,6 +349,8 @@ class Session:
             root.setLevel(saved_level)
             click._compat.isatty = saved_isatty
             bu.subprocess, bu.shutil = saved_sub, saved_sh
+            for m in patched:
+                del m.open
         self.touch_events += list(_AUDIT["events"])
         exc = tb = None
         if r.exception is not None and not isinstance(r.exception, SystemExit):
@@ -374,12 +423,19 @@ class Session:
         return w
 
 
+def _dump_json(value, f):
+    if isinstance(value, (tuple, list)) and len(value) == 2 and value[0] == "unreadable":
+        f.write(value[1])  # a torn / truncated state file, reproduced byte for byte
+    else:
+        json.dump(value, f)
+
+
 def _read_json(p):
     try:
         with open(p) as f:
             return json.load(f)
     except ValueError:
-        return ("unreadable", open(p, errors="replace").read()[:200])
+        return ("unreadable", open(p, errors="replace").read())
 
 
 def parse_status(stdout):
